@@ -15,6 +15,7 @@ CONSTANTS
   MaxSteps = 6
   Classes <- Cl123
   MonName = "C03"
+  Alpha = "events"
 INVARIANT NoViolation
 INVARIANT NoPanic
 INVARIANT CountersExact
